@@ -108,8 +108,24 @@ def run(ctx):
     jobs += [dict(op="gen_cli", argv=cli_args(p), limit=60) for p in names]
     jobs += [dict(op="manual_name", args=enc([m["moves"], m["rewards"], m["loose"]] + [k / 100 for k in m["k"]]))
              for m in manual]
+    # the generator's main() called several times in ONE process (a driver setting sys.argv per board), alternating -f
+    seqs = []
+    for k in range(3 if ctx.quick else 20):
+        a, b, c = (mk(seed=1000 + 3 * k, w=2, l=1, fd=True), mk(seed=1001 + 3 * k, w=2, l=1, fd=False, rb=29),
+                   mk(seed=1002 + 3 * k, w=1, l=2, fd=True, lt=57))
+        seqs.append([a, b, c])
+    jobs += [dict(op="gen_main_seq", argvs=[cli_args(p) for p in sq], limit=60) for sq in seqs]
     res = impl.run_cases(jobs, limit=20, tag="c17")
+    nseq = len(seqs)
+    rseq, res = res[len(res) - nseq:], res[:len(res) - nseq]
     rp, rn, rm = res[:len(probs)], res[len(probs):len(probs) + len(names)], res[len(probs) + len(names):]
+    for sq, r in zip(seqs, rseq):
+        steps = r.get("seq") or []
+        if len(steps) != len(sq):
+            ctx.harness_errors.append("gen_main_seq returned %s" % str(r)[:200])
+            continue
+        names = names + sq                       # judged below exactly like the one-process-per-run cases
+        rn = rn + steps
 
     # ---- prob_to_str
     pterms, pmeta = [], []
